@@ -187,6 +187,13 @@ Lemma quat_abs_and_rotate_wrapper (q : Qt) :
   AffineSpaceT_LinearSpace3_v3f_rotate__QuaternionT_f IR q = mk_AffineSpaceT_LinearSpace3_vec3 IR (mat_of_quat q) (v3 0 0 0).
 Proof. destruct q. repeat split; reflexivity. Qed.
 
+Lemma affine2_factories_def (x y r : R) :
+  AffineSpaceT_LinearSpace2_v2f_scale__v2f IR (v2 x y) = mk_AffineSpaceT_LinearSpace2_vec2 IR (rows2 x 0 0 y) (v2 0 0) /\
+  AffineSpaceT_LinearSpace2_v2f_translate__v2f IR (v2 x y) = mk_AffineSpaceT_LinearSpace2_vec2 IR one2 (v2 x y) /\
+  AffineSpaceT_LinearSpace2_v2f_rotate__f IR r = mk_AffineSpaceT_LinearSpace2_vec2 IR (rotate2 r) (v2 0 0) /\
+  LinearSpace2_scale__v2f IR (v2 x y) = rows2 x 0 0 y.
+Proof. repeat split; reflexivity. Qed.
+
 Lemma clamp_scalar (x : R) :
   -1 <= clamp__f_f_f IR x (-1) 1 <= 1 /\ (-1 <= x <= 1 -> clamp__f_f_f IR x (-1) 1 = x).
 Proof.
